@@ -13,6 +13,15 @@ package sampledconn
 // prefix, FROM OFFSET 0, of what was written so far - each byte exactly once, in order.
 // Not judged (outside the statement, reported as outcome classes): PeekBytes on a stream shorter than 3
 // bytes; a reader that uses the promoted io.WriterTo (io.Copy) instead of Read.
+//
+// End of the stream / errors of the connection underneath ("any underlying connection": an io.Reader may return
+// n > 0 TOGETHER WITH err != nil): every point is run (i) with the writer closing after the reader has read
+// everything, (ii) with the writer closing BEFORE the reader reads what the last write sent, the connection
+// handing out its last segment before io.EOF, (iii) the same with the last segment in the same Read call as
+// io.EOF; and PeekBytes is additionally called only AFTER the writer wrote everything and closed (a 3-byte
+// stream then reaches PeekBytes as (3, io.EOF) in one call). In (ii)/(iii) all bytes must have arrived when the
+// reader sees the end. TestVerifC02SampledReadFaults breaks the connection at enumerated byte positions with the
+// error arriving together with the segment that ends there, or after it (control).
 
 import (
 	"bytes"
@@ -37,6 +46,11 @@ type c02Case struct {
 	Each      bool   `json:"read_after_each_write"`
 	PeekFirst bool   `json:"peek_called_before_the_writes"`
 	Reader    string `json:"reader"`
+	// PeekLate: PeekBytes is called only after the writer wrote everything and closed
+	PeekLate    bool               `json:"peek_called_after_the_writer_closed,omitempty"`
+	CloseEarly  bool               `json:"writer_closes_before_the_last_read,omitempty"`
+	EOFWithData bool               `json:"last_segment_arrives_together_with_eof,omitempty"`
+	Fault       *memconn.ReadFault `json:"read_fault,omitempty"`
 }
 
 func c02ShortWrites(w []int) []int {
@@ -58,6 +72,7 @@ func c02Point(c c02Case, writes []int, payload []byte, pol memconn.Policy, buf *
 	defer a.Close()
 	defer b.Close()
 	b.SetReadChunks(c.Short...)
+	b.SetEOFWithData(c.EOFWithData)
 	b.SetReadDeadline(time.Now().Add(time.Hour)) // a peek that can never complete ends with a timeout
 	fail := func(key, f string, args ...any) (*memconn.Problem, string) {
 		return &memconn.Problem{Key: key, Desc: fmt.Sprintf(f, args...)}, ""
@@ -101,6 +116,9 @@ func c02Point(c c02Case, writes []int, payload []byte, pol memconn.Policy, buf *
 		if p := tr.WriteOne(wi); p != nil {
 			return p, ""
 		}
+		if c.PeekLate {
+			continue
+		}
 		if sc == nil && peekErr == nil && tr.Accepted >= 3 {
 			if peekCh == nil {
 				startPeek()
@@ -115,7 +133,7 @@ func c02Point(c c02Case, writes []int, payload []byte, pol memconn.Policy, buf *
 		if peekErr != nil {
 			return fail("peek-failed-on-healthy-conn", "PeekBytes failed with %d bytes written: %v", tr.Accepted, peekErr)
 		}
-		if sc != nil && c.Each && c.Reader == "Read" {
+		if sc != nil && c.Each && c.Reader == "Read" && !(c.CloseEarly && wi == len(writes)-1) {
 			if p := tr.Drain(); p != nil {
 				return p, ""
 			}
@@ -123,6 +141,9 @@ func c02Point(c c02Case, writes []int, payload []byte, pol memconn.Policy, buf *
 	}
 	if tr.Accepted < 3 {
 		// shorter than the sample: close the writer; PeekBytes has to give up (not judged beyond "returns")
+		if c.PeekLate {
+			a.Close()
+		}
 		if peekCh == nil {
 			startPeek()
 		}
@@ -137,6 +158,28 @@ func c02Point(c c02Case, writes []int, payload []byte, pol memconn.Policy, buf *
 		default:
 			return fail("peek-does-not-complete", "PeekBytes still blocked after the writer closed a %d-byte stream", tr.Accepted)
 		}
+	}
+	if c.CloseEarly && c.Reader == "Read" {
+		// the end of the stream travels behind the data
+		a.Close()
+		tr.WriterClosed = true
+		if c.PeekLate {
+			startPeek()
+			if p := collect(); p != nil {
+				return p, ""
+			}
+			if peekErr != nil {
+				return fail("peek-failed-on-healthy-conn", "PeekBytes failed on a complete, closed stream of %d bytes: %v", tr.Accepted, peekErr)
+			}
+			if sc == nil {
+				return fail("peek-does-not-complete", "PeekBytes still blocked on a complete, closed stream of %d bytes", tr.Accepted)
+			}
+		}
+		end, p := tr.DrainToEnd(4)
+		if p != nil {
+			return p, ""
+		}
+		return nil, "writer closed before the last read: delivered intact from offset 0, end of stream: " + end
 	}
 	switch c.Reader {
 	case "Read":
@@ -186,7 +229,11 @@ func TestVerifC02Sampled(t *testing.T) {
 		r.Bounds["quick_reduction_zero_length_writes"] = "the split with zero-length writes in between only with short reads {unlimited,1} underneath"
 	}
 	r.Bounds["short_read_patterns(cyclic, 0=unlimited)"] = shorts
-	r.Bounds["peek"] = "PeekBytes called before the first write (blocks) | once 3 bytes were written"
+	r.Bounds["peek"] = "PeekBytes called before the first write (blocks) | once 3 bytes were written | after the writer wrote everything and closed"
+	r.Bounds["end_of_stream"] = "the writer closes after the reader read everything (peek before the writes | after 3 bytes) | before the reader reads what the last write sent, last segment before io.EOF | the same, last segment together with io.EOF (these two: peek after 3 bytes | after the close)"
+	if !thorough {
+		r.Bounds["quick_reduction_early_close"] = "the early close only when reading after the last write and for L <= 4096; last segment before io.EOF: only with PeekBytes called after the close"
+	}
 	r.Bounds["read_after"] = "each write | last write"
 	r.Bounds["read_sizes"] = fmt.Sprintf("%v, L+1, remaining-1, remaining, remaining+1", fixed)
 	r.Bounds["readers"] = "Read (judged); io.Copy via the promoted io.WriterTo (probe, not judged)"
@@ -212,20 +259,35 @@ func TestVerifC02Sampled(t *testing.T) {
 				if !b.Mine(sp.Sizes, short) {
 					continue
 				}
-				for _, peekFirst := range []bool{false, true} {
+				// (peek before the writes | after 3 bytes | after the close) x (close after the reads | before the last
+				// read, EOF after the last segment | before the last read, EOF with the last segment)
+				type mode struct{ peekFirst, peekLate, closeEarly, join bool }
+				// (once PeekBytes has returned, the wrapper's state does not depend on when it was called: the early
+				// close is combined with "after 3 bytes" and "after the close" only)
+				modes := []mode{{false, false, false, false}, {true, false, false, false},
+					{false, false, true, false}, {false, true, true, false},
+					{false, false, true, true}, {false, true, true, true}}
+				for _, md := range modes {
+					peekFirst := md.peekFirst
 					for _, each := range []bool{false, true} {
-						if each && len(sp.Sizes) == 1 {
+						if each && (len(sp.Sizes) == 1 || md.peekLate) {
+							continue
+						}
+						if !thorough && md.closeEarly && (each || L > 4096 || (!md.join && !md.peekLate)) {
+							// quick: the early close only when reading after the last write, L <= 4096, and - with the
+							// last segment BEFORE io.EOF - only with PeekBytes called after the close
 							continue
 						}
 						for pi, pol := range pols {
 							for _, reader := range []string{"Read", "io.Copy"} {
-								if reader == "io.Copy" && (pi > 0 || each) {
+								if reader == "io.Copy" && (pi > 0 || each || md.closeEarly) {
 									continue // the read policy does not apply
 								}
 								if b.Over() {
 									return
 								}
-								c := c02Case{Layer: "sampledconn", L: L, Split: sp.Name, Writes: c02ShortWrites(sp.Sizes), Policy: pol.Name, Short: short, Each: each, PeekFirst: peekFirst, Reader: reader}
+								c := c02Case{Layer: "sampledconn", L: L, Split: sp.Name, Writes: c02ShortWrites(sp.Sizes), Policy: pol.Name, Short: short, Each: each, PeekFirst: peekFirst, Reader: reader,
+									PeekLate: md.peekLate, CloseEarly: md.closeEarly, EOFWithData: md.join}
 								var prob *memconn.Problem
 								var class string
 								pan := memconn.Bubble(t, func() { prob, class = c02Point(c, sp.Sizes, payload, pol, &b.Buf) })
@@ -241,10 +303,115 @@ func TestVerifC02Sampled(t *testing.T) {
 								default:
 									r.Outcome(class)
 									if L >= 3 && reader == "Read" {
-										b.Distinct(c, sp.Sizes, short, peekFirst, each, pol.Name)
+										b.Distinct(c, sp.Sizes, short, md, each, pol.Name)
 									}
 								}
 							}
+						}
+					}
+				}
+			}
+		}
+	}
+}
+
+// c02FaultPoint: one read-fault run. The writer writes everything (L = W bytes in flight, nothing is framed),
+// then the stream ends (eof) or the fault is armed, then PeekBytes is called and the wrapped connection is read
+// for 6 Reads beyond the first error.
+func c02FaultPoint(c c02Case, writes []int, payload []byte, pol memconn.Policy, f memconn.ReadFault, buf *[]byte) (res memconn.FaultResult, note string) {
+	a, b := memconn.Pair()
+	defer a.Close()
+	defer b.Close()
+	b.SetReadChunks(c.Short...)
+	b.SetReadDeadline(time.Now().Add(time.Hour))
+	link := &memconn.Link{W: a, RRaw: b}
+	tr := link.Transfer(payload, writes, false, pol, *buf)
+	defer func() { *buf = tr.Buf }()
+	if res.Problem = tr.WriteAll(); res.Problem != nil {
+		return
+	}
+	res.W = b.Buffered()
+	if f.Kind == "eof" {
+		b.SetEOFWithData(f.WithData)
+		a.Close()
+		tr.WriterClosed = true
+	} else {
+		b.FailReadAfter(int64(f.Pos), f.Err(), f.WithData)
+	}
+	peeked, sc, err := PeekBytes(b)
+	if err != nil {
+		if f.Kind == "eof" && len(payload) >= 3 {
+			res.Problem = &memconn.Problem{Key: "peek-failed-on-healthy-conn", Desc: fmt.Sprintf("PeekBytes failed on a complete, closed stream of %d bytes: %v", len(payload), err)}
+			return
+		}
+		// the connection broke: giving up in PeekBytes is allowed (the sample may even be complete)
+		res.Obs.FirstErr, res.Obs.NonEOFErr, res.Obs.Errors = err, true, 1
+		return res, "PeekBytes fails"
+	}
+	if !bytes.Equal(peeked[:], payload[:3]) {
+		res.Problem = &memconn.Problem{Key: "peeked-bytes-differ", Desc: fmt.Sprintf("PeekBytes returned %x, the first three bytes written are %x", peeked[:], payload[:3])}
+		return
+	}
+	tr.R = sc
+	res.Obs, res.Problem = tr.ReadTampered(6)
+	return res, ""
+}
+
+func TestVerifC02SampledReadFaults(t *testing.T) {
+	r := vrep.New("C02", "sampled-readfaults")
+	defer r.Flush()
+	b := memconn.NewBook(r)
+	defer b.Finish()
+	thorough := vrep.Thorough()
+	lengths := []int{3, 4, 5, 8, 4096}
+	shorts := [][]int{{0}, {1}, {2}, {3}, {4}}
+	pols := []memconn.Policy{memconn.Fixed(1), memconn.Fixed(2), memconn.Fixed(3), memconn.Fixed(4), memconn.Rel(0), memconn.Fixed(4096), memconn.Fixed(2).WithZeros(1)}
+	if thorough {
+		lengths = append(lengths, 6, 7, 9, 65536)
+		shorts = append(shorts, []int{7}, []int{1, 2}, []int{2, 1}, []int{4096})
+		pols = append(pols, memconn.Fixed(5), memconn.Rel(-1), memconn.Rel(1), memconn.Fixed(1).WithZeros(1), memconn.Fixed(3).WithZeros(0, 2))
+	}
+	r.Bounds["L"] = lengths
+	r.Bounds["write_splits"] = "whole, thirds"
+	r.Bounds["short_read_patterns(cyclic, 0=unlimited)"] = shorts
+	var pn []string
+	for _, p := range pols {
+		pn = append(pn, p.Name)
+	}
+	r.Bounds["read_policies"] = pn
+	r.Bounds["faults"] = "eof {with | after the last segment}; at every position: reset with the segment, reset after the segment (control), expired deadline with the segment"
+	r.Bounds["fault_positions(bytes delivered before the break, of L in flight)"] = "1, 2, 3, 4, 5, L/2, L-2, L-1, L"
+	r.Bounds["peek"] = "PeekBytes called after the writes (and after the close / with the fault armed)"
+	r.Bounds["reads_after_first_error"] = 6
+	for _, L := range lengths {
+		payload := memconn.Pattern(0x5A3BFA17, L)
+		for _, sp := range memconn.Splits(L, nil, 0) {
+			if sp.Name != "whole" && sp.Name != "thirds" {
+				continue
+			}
+			for fi, f := range memconn.Faults(L, []int{4, 5}) {
+				if !b.Mine(L, sp.Name, fi) {
+					continue
+				}
+				for _, short := range shorts {
+					for _, pol := range pols {
+						if b.Over() {
+							return
+						}
+						f := f
+						c := c02Case{Layer: "sampledconn", L: L, Split: sp.Name, Writes: c02ShortWrites(sp.Sizes), Policy: pol.Name, Short: short, Reader: "Read", PeekLate: true, EOFWithData: f.Kind == "eof" && f.WithData, Fault: &f}
+						var res memconn.FaultResult
+						var note string
+						pan := memconn.Bubble(t, func() { res, note = c02FaultPoint(c, sp.Sizes, payload, pol, f, &b.Buf) })
+						res.Panic = pan
+						if note != "" && res.Panic == "" && res.Problem == nil {
+							b.N++
+							b.Transfers++
+							r.Outcome(fmt.Sprintf("sampledconn %s: %s (%s; not judged)", f.Kind, note, memconn.ErrClass(res.Obs.FirstErr)))
+							continue
+						}
+						if cls := b.ReadFault("sampledconn", res, f, L, c); cls != "" {
+							b.Distinct(c, L, sp.Name, fi, short, pol.Name)
 						}
 					}
 				}
